@@ -23,6 +23,6 @@ From MR Require Import Lib.Bytes Lib.Val Model.RunPaths.
 Lemma C12_confinement_as_found_refuted : ~ C12_confinement_statement (fun _ => true).
 Proof.
   intro H. specialize (H [bs "run"%string] (bs "5"%string) (bs "../4/hello"%string) (bs "h"%string) eq_refl eq_refl eq_refl).
-  vm_compute in H. discriminate.
+  destruct H as [H _]. vm_compute in H. discriminate.
 Qed.
 Print Assumptions C12_confinement_as_found_refuted.
